@@ -1,3 +1,4 @@
+import PydapModel.DdsForeign
 import PydapModel.DdsText
 import PydapModel.Generated.Tables
 import PydapModel.Sexp
